@@ -33,6 +33,14 @@ type Ctx struct {
 	funcs map[string]*FuncInfo // key: pkgpath + "::" + name
 	all   []*FuncInfo
 
+	// helpers extracted from a single call site are analysed as part of their
+	// caller: linked maps that call expression to the callee, and the callee's
+	// declaration gets the call expression as its parent (see link).
+	linked    map[*ast.CallExpr]*FuncInfo
+	linkedTo  map[*FuncInfo]*ast.CallExpr
+	requested map[string]bool
+	idx       map[*packages.Package]*pkgIndex
+
 	// load configuration (for evidence)
 	LoadEnv   []string
 	LoadFlags []string
@@ -55,7 +63,8 @@ func loadCtx(repo, tier string, extraEnv []string, buildFlags []string) (*Ctx, e
 	if err != nil {
 		return nil, fmt.Errorf("packages.Load: %v", err)
 	}
-	c := &Ctx{Repo: repo, Tier: tier, funcs: map[string]*FuncInfo{}, LoadEnv: extraEnv, LoadFlags: buildFlags, FileSet: map[string][]string{}}
+	c := &Ctx{Repo: repo, Tier: tier, funcs: map[string]*FuncInfo{}, LoadEnv: extraEnv, LoadFlags: buildFlags, FileSet: map[string][]string{},
+		linked: map[*ast.CallExpr]*FuncInfo{}, linkedTo: map[*FuncInfo]*ast.CallExpr{}, requested: map[string]bool{}, idx: map[*packages.Package]*pkgIndex{}}
 	for _, p := range pkgs {
 		if len(p.Errors) > 0 {
 			return nil, fmt.Errorf("package %s has errors: %v", p.PkgPath, p.Errors[0])
@@ -93,7 +102,10 @@ func loadCtx(repo, tier string, extraEnv []string, buildFlags []string) (*Ctx, e
 				if obj == nil {
 					continue
 				}
-				fi := newFuncInfo(p, fd, obj)
+				if c.idx[p] == nil {
+					c.idx[p] = &pkgIndex{parent: map[ast.Node]ast.Node{}, defs: map[*types.Var][]defSite{}}
+				}
+				fi := newFuncInfo(c, p, fd, obj)
 				c.funcs[p.PkgPath+"::"+fi.Name] = fi
 				c.all = append(c.all, fi)
 			}
@@ -106,7 +118,128 @@ func loadCtx(repo, tier string, extraEnv []string, buildFlags []string) (*Ctx, e
 // Fn returns the function named name ("solve", "gen.inject",
 // "injectorGen.funcProviderCall") in package p, or nil.
 func (c *Ctx) Fn(p *packages.Package, name string) *FuncInfo {
+	c.requested[p.PkgPath+"::"+name] = true
 	return c.funcs[p.PkgPath+"::"+name]
+}
+
+// link makes helpers that have exactly one call site in their own package,
+// are never used as values, are not recursive and are not requested by name
+// by any rule transparent to the analyses: the callee's declaration is given
+// the call expression as parent (so dominating conditions, enclosing loops
+// and "within" relations continue into the caller) and each parameter is
+// treated as defined by the corresponding argument expression.
+func (c *Ctx) link(anchors map[string]bool) {
+	type site struct {
+		from *FuncInfo
+		call *ast.CallExpr
+	}
+	calls := map[*types.Func][]site{}
+	valueRefs := map[*types.Func]int{}
+	for _, fi := range c.all {
+		ast.Inspect(fi.Decl, func(n ast.Node) bool {
+			id, ok := n.(*ast.Ident)
+			if !ok {
+				return true
+			}
+			f, ok := fi.Info.Uses[id].(*types.Func)
+			if !ok || c.FnOf(f) == nil {
+				return true
+			}
+			// is this identifier the function operand of a call?
+			var fun ast.Expr = id
+			par := fi.parent[id]
+			if sel, ok := par.(*ast.SelectorExpr); ok && sel.Sel == id {
+				fun = sel
+				par = fi.parent[sel]
+			}
+			for {
+				if pe, ok := par.(*ast.ParenExpr); ok {
+					fun = pe
+					par = fi.parent[pe]
+					continue
+				}
+				break
+			}
+			if call, ok := par.(*ast.CallExpr); ok && call.Fun == fun {
+				calls[f] = append(calls[f], site{fi, call})
+			} else {
+				valueRefs[f]++
+			}
+			return true
+		})
+	}
+	for _, h := range append([]*FuncInfo{}, c.all...) {
+		ss := calls[h.Obj]
+		if len(ss) != 1 || valueRefs[h.Obj] > 0 || anchors[h.Key()] || h.Obj.Exported() {
+			continue
+		}
+		s := ss[0]
+		if s.from == h || s.from.Pkg != h.Pkg || h.Decl.Body == nil {
+			continue
+		}
+		// no cycles through links
+		cyc := false
+		for p := s.from; p != nil; {
+			if p == h {
+				cyc = true
+				break
+			}
+			cl := c.linkedTo[p]
+			if cl == nil {
+				break
+			}
+			p = c.enclosingFunc(p.Pkg, cl)
+		}
+		if cyc {
+			continue
+		}
+		sig := h.Obj.Type().(*types.Signature)
+		if sig.Variadic() {
+			continue
+		}
+		c.linked[s.call] = h
+		c.linkedTo[h] = s.call
+		// a linked helper is analysed through its caller: drop it from the iteration set
+		for i, x := range c.all {
+			if x == h {
+				c.all = append(append([]*FuncInfo{}, c.all[:i]...), c.all[i+1:]...)
+				break
+			}
+		}
+		h.parent[h.Decl] = s.call
+		// bind parameters to arguments
+		i := 0
+		for _, f := range h.Decl.Type.Params.List {
+			for _, nm := range f.Names {
+				if v, ok := h.Info.Defs[nm].(*types.Var); ok && i < len(s.call.Args) {
+					if ds := h.defs[v]; len(ds) == 1 && ds[0].kind == "param" {
+						h.defs[v] = []defSite{{node: ds[0].node, rhs: s.call.Args[i], idx: -1, kind: "param"}}
+					}
+				}
+				i++
+			}
+		}
+		if h.Decl.Recv != nil && len(h.Decl.Recv.List) == 1 && len(h.Decl.Recv.List[0].Names) == 1 {
+			if v, ok := h.Info.Defs[h.Decl.Recv.List[0].Names[0]].(*types.Var); ok {
+				if rx := recvOf(s.call); rx != nil && len(h.defs[v]) == 0 {
+					h.defs[v] = []defSite{{node: h.Decl.Recv.List[0], rhs: rx, idx: -1, kind: "param"}}
+				}
+			}
+		}
+	}
+}
+
+// enclosingFunc returns the declared function containing node n.
+func (c *Ctx) enclosingFunc(p *packages.Package, n ast.Node) *FuncInfo {
+	idx := c.idx[p]
+	for q := n; q != nil; q = idx.parent[q] {
+		if fd, ok := q.(*ast.FuncDecl); ok {
+			if obj, ok := p.TypesInfo.Defs[fd.Name].(*types.Func); ok {
+				return c.FnOf(obj)
+			}
+		}
+	}
+	return nil
 }
 
 // FnOf returns the FuncInfo for a *types.Func declared in the module, or nil.
